@@ -5,10 +5,10 @@ EXTENDS Tagger, TaggerTables
 MCKinds == {"light", "annotated"}
 MCFlags == {"absent", "true", "false"}
 
-MCTagNamesQ == {"v3.0.1", "3.0.1", "v3.1.0-rc.1", "v3.1.0-alpha.10", "v3.1.0", "v4.0.0", "v3", "v3.1", "latest"}
+MCTagNamesQ == {"v3.0.1", "3.0.1", "v3.1.0-rc.1", "v3.1.0-alpha.10", "v3.1.0", "v4.0.0", "v3", "latest"}
 \* abbreviated spellings (two-part, v-less, major-only) are in the quick tier on purpose: the tag must still be
 \* named after the canonical version
-MCRequestsQ == {"v3.0.1", "v3.1.0-alpha.2", "v3.1.0", "v3.1", "v4", "banana", "<missing>"}
+MCRequestsQ == {"v3.0.1", "v3.1.0-alpha.2", "v3.1.0", "v3.1", "v4", "<missing>"}
 MCDirtyQ    == {"modified", "staged", "untracked", "deleted"}
 
 MCNoBump == {}
@@ -18,7 +18,7 @@ MCTreeT == {"v3.1.0", "v3"}
 MCTagNamesS == {"v3.1.0-rc.1", "3.0.1", "v3", "latest", "v4.0.0", "v3.1", "rel.2024.01"}
 MCRequestsS == {"v3.0.1", "v3.1.0-rc.1", "v3.1.0", "v4.0.0", "3.1.0", "v0.0.0", "banana", "v3.1", "3.1", "v4", "v3.1.0+build.5"}
 
-MCTagNamesT == MCTagNamesQ \cup {"v4", "release/v3.1.0", "v3.1-alpha.1"}
+MCTagNamesT == MCTagNamesQ \cup {"v4", "v3.1", "release/v3.1.0", "v3.1-alpha.1"}
 MCRequestsT == DOMAIN MCReqTable
 MCDirtyT    == MCDirtyQ \cup {"ignored"}
 =============================================================================
